@@ -188,6 +188,11 @@ class CallMixin:
       return self.call_contract(c, bound, node)
     if (fr.module.relpath, fr.qualname) in self.theory.inline:
       return self.call_inline(fr, fdef, bound)
+    # a small loop-free helper without a contract (e.g. one extracted by a refactoring): its real body is
+    # executed in place, which is exact; recorded so that the evidence lists it
+    if self.depth < 3 and not any(isinstance(n, (ast.For, ast.While, ast.Try, ast.With, ast.Yield, ast.YieldFrom)) for n in ast.walk(fdef)) and len(fdef.body) <= 12:
+      self.theory.__dict__.setdefault('auto_inlined', set()).add('%s::%s' % (fr.module.relpath, fr.qualname))
+      return self.call_inline(fr, fdef, bound)
     raise Unsupported('call to %s:%s has neither contract nor inline mark (line %s)' % (
         fr.module.relpath, fr.qualname, getattr(node, 'lineno', '?')))
 
